@@ -16,6 +16,7 @@ from . import hailvalues as hv
 # (tdict converted keys/values without the None check) was repaired by /repo commit 1824f18d5 and is a plain violation again.
 CLASS_WITNESS = {
     'ndarray-non-numeric': {'type': ['ndarray', ['str'], 0], 'value': ['nd', [], [''], 'C']},
+    'struct-field-named-self': {'type': ['struct', [['self', ['i32']]]], 'value': ['st', [1]]},
 }
 
 
@@ -200,11 +201,18 @@ class C32(Prop):
             return None
         # attribute the failure to the known classes only if removing every occurrence of them repairs the round trip (removing
         # one class can uncover the other — an unsupported n-d array that is a dict value becomes a missing dict value)
+        # a struct field named `self` (hl.Struct cannot hold it): attributed only if renaming the field repairs the round trip
+        if '"self"' in json.dumps(t):
+            t2 = json.loads(json.dumps(t).replace('["self",', '["self_renamed",'))
+            if json.dumps(t2) != json.dumps(t) and '["self",' not in json.dumps(t2):
+                c2 = {'type': t2, 'value': v}
+                if self.oracle(c2, ['ok']) is None:
+                    return f'[class=struct-field-named-self] {why}'
         cur = v
         applied = []
         for _ in range(6):
             before = json.dumps(cur)
-            for cls in CLASS_WITNESS:
+            for cls in ('ndarray-non-numeric',):
                 if has_class(t, cur, cls):
                     cur = strip_known(t, cur, cls)
                     if cls not in applied:
